@@ -237,4 +237,33 @@ def execFall (fs : Funs) : Nat → Clauses → St → Option (Sig × St)
     | r => r
 end
 
+/-! ## case lists of a tagless switch: `case c, d, …:`
+
+  "The switch expressions … are evaluated left-to-right and top-to-bottom; the first one that equals the switch
+  expression triggers execution of the statements of the associated case": the conditions of a list are tested
+  in source order, the clause is chosen at the first that is true, the others are not evaluated. -/
+
+/-- is the clause `case c, ds…:` chosen? `none` = a condition panics before one is true -/
+def evalCaseList (s : St) : BExpr → List BExpr → Option Bool
+  | c, [] => c.eval s
+  | c, d :: ds =>
+    match c.eval s with
+    | some true => some true
+    | some false => evalCaseList s d ds
+    | none => none
+
+/-- the clause condition a case list stands for in `Clauses.cons`: `c || (d || …)` — by `caseList_eval` this is the
+    list semantics above, so a tagless switch with case lists is a program of the fragment -/
+def caseList : BExpr → List BExpr → BExpr
+  | c, [] => c
+  | c, d :: ds => .lor c (caseList d ds)
+
+theorem caseList_eval (s : St) : ∀ (ds : List BExpr) (c : BExpr), (caseList c ds).eval s = evalCaseList s c ds := by
+  intro ds
+  induction ds with
+  | nil => intro c; rfl
+  | cons d ds ih =>
+    intro c
+    simp only [caseList, evalCaseList, BExpr.eval, ih d]
+
 end YaegiVerif.Core
